@@ -205,3 +205,47 @@ pub fn c09(tier: Tier, replay: Option<String>) -> i32 {
     let cases = tier.pick(3000, 120_000);
     drive_hist(&ctx, &check, move || case_strategy(p.clone(), None, false), cases)
 }
+
+// ----------------------------------------------------------------------------------------- C12
+
+pub fn c12(tier: Tier, replay: Option<String>) -> i32 {
+    let check = HistCheck {
+        prop: "C12",
+        oracles: Oracles { auto_inc: true, ..Default::default() },
+        gates: gates_for("C12"),
+        nontrivial: |info, _| info.auto_generated_after_event,
+    };
+    if let Some(p) = replay {
+        return vcore::replay_file("C12", &check, &p);
+    }
+    let ctx = Ctx::new("C12", tier, "exploration");
+    ctx.set_rule(
+        "E-hist histories on tables with an INT PRIMARY KEY AUTO_INCREMENT column: inserts that omit the id or pass NULL, inserts with explicit ids above and below the counter,          deletes (incl. of the maximum), TRUNCATE, transactions with ROLLBACK / ROLLBACK TO, checkpoint and reopen. Invariant over the history (no model of the counter needed):          every generated id is greater than every value the column has been observed to hold at any earlier point (committed or later rolled back), and the ids generated by one          statement are distinct. Non-trivial = ids were generated after a delete, rollback, truncate, checkpoint or reopen; distinct by hash of schema+ops.",
+    );
+    ctx.assume("generated ids are identified as the ids present after the INSERT and absent before it; statements mixing explicit and generated ids are only used to move the counter, not judged");
+    let p = Profile { max_tables: 2, max_ops: 30, txn: 3, dml: 12, lifecycle: 2, truncate: 1, allow_auto_inc: true, allow_text_pk: false, ..Profile::default() };
+    let cases = tier.pick(3000, 120_000);
+    drive_hist(&ctx, &check, move || case_strategy(p.clone(), None, true), cases)
+}
+
+// ----------------------------------------------------------------------------------------- C21
+
+pub fn c21(tier: Tier, replay: Option<String>) -> i32 {
+    let check = HistCheck {
+        prop: "C21",
+        oracles: Oracles { model: true, ..Default::default() },
+        gates: gates_for("C21"),
+        nontrivial: |info, _| info.executed.iter().any(|k| matches!(*k, "ADD_COLUMN" | "DROP_COLUMN" | "RENAME_COLUMN" | "CREATE_INDEX" | "DROP_INDEX" | "CREATE_TABLE" | "DROP_TABLE" | "TRUNCATE")) && info.lifecycle_after_dml,
+    };
+    if let Some(p) = replay {
+        return vcore::replay_file("C21", &check, &p);
+    }
+    let ctx = Ctx::new("C21", tier, "exploration");
+    ctx.set_rule(
+        "E-hist histories interleaving CREATE/DROP TABLE, CREATE/DROP INDEX, TRUNCATE and ALTER TABLE ADD / DROP / RENAME COLUMN with DML and close+reopen. Oracle: the relational          model predicts every table's column set and rows (defaults for new rows of added columns, preserved values after DROP/RENAME COLUMN, emptied tables after TRUNCATE,          backfilled indexes answering probes, dropped objects gone) after every statement and after reopen. Non-trivial = at least one schema change and a reopen after DML in          the same history; distinct by hash of schema+ops.",
+    );
+    ctx.assume("ADD COLUMN with a DEFAULT on a table that already has rows is not generated (the property allows default or NULL for existing rows); dropping key/indexed columns is not generated");
+    let p = Profile { max_tables: 2, max_ops: 30, ddl: 6, dml: 10, lifecycle: 2, truncate: 1, ..Profile::default() };
+    let cases = tier.pick(3000, 120_000);
+    drive_hist(&ctx, &check, move || case_strategy(p.clone(), None, false), cases)
+}
